@@ -76,7 +76,72 @@ def pool(jobs=None):
     return _POOL
 
 
+def discharge_portfolio(obls, timeout_ms=60000, jobs=None):
+    """binary64 obligations: z3 and cvc5 run side by side on every obligation, the first definite answer wins;
+    a disagreement between two definite answers is recorded (-> exit 3 in the driver)"""
+    global _POOL
+    import time as _t
+    P = pool(jobs)
+    pending = {}
+    results = {}
+    texts = {}
+    for ob in obls:
+        smt2 = to_smt2(ob)
+        texts[ob.name] = smt2
+        pending[ob.name] = [P.apply_async(_z3_worker, ((ob.name, smt2, timeout_ms, True),)),
+                            P.apply_async(_cvc5_worker, ((ob.name, smt2, timeout_ms, False),))]
+        results[ob.name] = []
+    byname = {ob.name: ob for ob in obls}
+    t0 = _t.time()
+    while True:
+        open_ = 0
+        for name, tasks in pending.items():
+            for t in list(tasks):
+                if t.ready():
+                    results[name].append(t.get())
+                    tasks.remove(t)
+            definite = [r for r in results[name] if r[1] in ('sat', 'unsat')]
+            if not definite and tasks:
+                open_ += 1
+        if open_ == 0 or _t.time() - t0 > timeout_ms / 1000 + 30:
+            break
+        _t.sleep(0.05)
+    leftovers = any(tasks for tasks in pending.values())
+    for name, rs in results.items():
+        definite = [r for r in rs if r[1] in ('sat', 'unsat')]
+        ob = byname[name]
+        if definite:
+            r = min(definite, key=lambda r: r[2])
+            ob.result = {'status': r[1], 'time': r[2], 'backend': r[3] + ' (portfolio z3 | cvc5)', 'model': None, 'reason': ''}
+            zm = [x for x in definite if x[4] is not None]
+            if zm:
+                ob.result['model'] = zm[0][4]
+            if len({x[1] for x in definite}) > 1:
+                ob.result['disagreement'] = [(x[3], x[1]) for x in definite]
+        else:
+            ob.result = {'status': 'unknown', 'time': max([r[2] for r in rs] + [0.0]), 'backend': 'z3 | cvc5', 'model': None,
+                         'reason': '; '.join('%s: %s %s' % (r[3], r[1], r[5]) for r in rs)}
+    # a refuted obligation needs the z3 model (cvc5 gives none here): run z3 again only for those without one
+    need = [ob for ob in obls if ob.result['status'] == 'sat' and ob.result['model'] is None]
+    if leftovers:
+        P.terminate()
+        _POOL = None
+        P = pool(jobs)
+    for ob in need:
+        r = P.apply_async(_z3_worker, ((ob.name, texts[ob.name], min(timeout_ms, 30000), True),)).get()
+        if r[1] == 'sat':
+            ob.result['model'] = r[4]
+    return obls
+
+
 def discharge(obls, timeout_ms=60000, jobs=None, second=False, portfolio_kinds=('fp',)):
+    pf = [o for o in obls if getattr(o, 'portfolio', False)]
+    if pf:
+        discharge_portfolio(pf, timeout_ms, jobs)
+        obls_rest = [o for o in obls if not getattr(o, 'portfolio', False)]
+        if obls_rest:
+            discharge(obls_rest, timeout_ms, jobs, second)
+        return obls
     """fills ob.result = {'status', 'time', 'backend', 'model', 'reason', 'second'}"""
     from . import quant
     work = []
